@@ -14,7 +14,9 @@ REQUIRED = ['lhm_linear', 'closed_form_root', 'root_solves', 'cramer_solves', 'c
             # Props/C15_Gen.lean: the code regenerated from g_estimation.py is the model, and the property for it
             'snm_closed_lhm_generated', 'snm_closed_rha_generated', 'snm_fit_weight_col_generated',
             'snm_fit_closed_generated', 'snm_fit_closed_cramer', 'snm_fit_closed_root', 'snm_fit_closed_unique',
-            'snm_search_hpsi_generated', 'snm_search_objective_zero_iff', 'snm_search_zero_is_closed_form']
+            'snm_search_hpsi_generated', 'snm_search_objective_zero_iff', 'snm_search_zero_is_closed_form',
+            # round 4: the H(psi) terms of the search solver (term rewriting), reporting methods are observers
+            'hterm_column', 'hterm_keeps_other_names', 'hterm_position_free', 'snm_reporting_methods_observe']
 RULE = ('every cell of outcome type {continuous, binary} x SNM {A, A + A:V, A + A:V + A:W} x weights {none, column} x '
         'missing outcome {none, dropped (no model), missing_model stabilized, missing_model unstabilized} gets fresh '
         'random data sets (n 80-260, binary/3-level/continuous covariates, random exposure model, shuffled or '
@@ -33,6 +35,41 @@ SNMS = {1: 'A', 2: 'A + A:V', 3: 'A + A:V + A:W'}
 EXPO = ['V + W + L', 'V + L', 'L + Z', 'V + W + L + Z', 'V + W + Z']
 MISS = ['none', 'dropped', 'model_stab', 'model_unstab']
 HISTORIES = ['snm_before', 'refit', 'exposure_before', 'search_before']
+# How the caller's columns are NAMED (round 4).  The check works with the canonical names A (exposure), Y (outcome),
+# V W L Z (covariates), wt (weights); `run_impl` renames the columns and rewrites every model string token by token
+# before it calls zEpid, and maps the reported psi labels back.  Families: names that contain one another -- the
+# exposure's name inside modifier / outcome / weight names (prefix, suffix, infix), a modifier's name inside the
+# exposure's name, two modifiers one inside the other -- which is what any text-level handling of model terms (the
+# H(psi) terms of the search solver; /repo 567fd2d) trips over.
+NAMESETS = {
+    'canonical': {},
+    'exposure_inside_modifiers': {'V': 'AV', 'W': 'WA', 'L': 'LAL', 'Z': 'A_Z', 'Y': 'YA', 'wt': 'wA'},
+    'art_start': {'A': 'art', 'V': 'start', 'W': 'art2', 'L': 'part', 'Y': 'dead'},
+    'modifier_inside_exposure': {'A': 'VW', 'Z': 'VWZ', 'Y': 'Y_VW'},
+    'nested_modifiers': {'A': 'trt', 'V': 'W1', 'W': 'W', 'L': 'W12', 'Y': 'out', 'wt': 'W_'},
+}
+TOKEN = re.compile(r'[A-Za-z_][A-Za-z_0-9]*')
+PATSY_WORDS = {'C', 'center', 'standardize', 'I'}
+SUMMARY_DECIMALS = [0, 1, 2, 3, 4, 6]
+
+
+def rename_tokens(text, mapping):
+    """rewrite the column names of a patsy model string token by token (function names are left alone)"""
+    if text is None or not mapping:
+        return text
+    return TOKEN.sub(lambda m: m.group(0) if m.group(0) in PATSY_WORDS else mapping.get(m.group(0), m.group(0)), text)
+
+
+def respell(snm, mode):
+    """the same structural nested model with every product written treatment-first / modifier-first"""
+    out = []
+    for t in snm.split(' + '):
+        fs = [f.strip() for f in t.split(':')]
+        if len(fs) == 2 and mode in ('treatment_first', 'modifier_first'):
+            m = [f for f in fs if f != 'A'][0]
+            fs = ['A', m] if mode == 'treatment_first' else [m, 'A']
+        out.append(':'.join(fs))
+    return ' + '.join(out)
 
 
 def make_snm(rng, p, variant):
@@ -195,12 +232,17 @@ def reference(chk, df, expo, weights, missing, miss_den, ipmw_in_use=None):
             'hasw': bool(weights), 'hasim': ipmw is not None}
 
 
-def run_impl(df, expo, p, weights, missing, miss_den, solver='closed', snm=None, history='auto', **kw):
+def run_impl(df, expo, p, weights, missing, miss_den, solver='closed', snm=None, history='auto', names='auto',
+             observe='auto', **kw):
     """history: what happened to the object before the judged fit (a result must depend on the last specification
     only): 'snm_before:<q>' fitted with another structural model, 'refit' fitted twice, 'exposure_before' fitted with
     another exposure model, 'search_before' a (truncated) search fit first, 'fit_then_missing_model' fitted, then the
-    missing-outcome model specified, then fitted again; 'auto' draws one of them in about half of the cases."""
-    from zepid.causal.snm import GEstimationSNM
+    missing-outcome model specified, then fitted again; 'auto' draws one of them in about half of the cases.
+    names: a key of NAMESETS (how the caller's columns are named; 'auto' draws a non-canonical set in 4 of 10 cases).
+    observe: reporting methods called between the judged fit() and reading psi / psi_labels, a list of
+    [method, kwargs] ('auto' draws summary(decimal=k) in half of the cases).  The object returned carries
+    `_verif_psi`, `_verif_labels` (canonical names) read AFTER the reporting calls, and `_verif_psi_at_fit`,
+    `_verif_labels_at_fit` read straight after fit()."""
     import warnings
     warnings.simplefilter('ignore')     # statsmodels re-arms PerfectSeparationWarning inside the search loop
     snm = snm or SNMS[p]
@@ -212,12 +254,59 @@ def run_impl(df, expo, p, weights, missing, miss_den, solver='closed', snm=None,
             history = str(hr.choice(HISTORIES + (['fit_then_missing_model'] * 3 if mm else [])))
             if history == 'snm_before':
                 history += ':%d' % int(hr.choice([q for q in SNMS if q != p]))
-    g = GEstimationSNM(df, exposure='A', outcome='Y', weights='wt' if weights else None)
-    g.exposure_model(expo, print_results=False)
-    g.structural_nested_model(snm)
+    if names == 'auto':
+        names = 'canonical'
+        if hr is not None and hr.uniform() < 0.4:
+            names = str(hr.choice([k for k in NAMESETS if k != 'canonical']))
+    if observe == 'auto':
+        observe = None
+        if hr is not None and hr.uniform() < 0.5:
+            observe = [['summary', {'decimal': int(hr.choice(SUMMARY_DECIMALS))} if hr.uniform() < 0.8 else {}]]
+    conv = kw.pop('conv', 'auto')
+    if conv == 'auto':
+        conv = 'positional' if (hr is not None and hr.uniform() < 0.3) else 'keyword'
+    drawn = {'history': history, 'names': names or 'canonical', 'observe': observe, 'conv': conv or 'keyword'}
+    try:
+        return _run_impl(df, expo, p, weights, missing, miss_den, solver, snm, mm, drawn, kw)
+    except Exception as e:       # noqa: BLE001  -- the drawn history / names / reporting calls go with it
+        e._verif_drawn = drawn
+        raise
+
+
+def _run_impl(df, expo, p, weights, missing, miss_den, solver, snm, mm, drawn, kw):      # noqa: C901
+    from zepid.causal.snm import GEstimationSNM
+    import contextlib
+    import io
+    history, names, observe = drawn['history'], drawn['names'], drawn['observe']
+    pos = drawn.get('conv') == 'positional'
+    nm = NAMESETS[names or 'canonical']
+    back = {v: k for k, v in nm.items()}
+
+    def r(text):
+        return rename_tokens(text, nm)
+    # call convention (round 4): by keyword, or every argument POSITIONALLY in the documented order
+    #   GEstimationSNM(df, exposure, outcome, weights=None); exposure_model(model, print_results=True);
+    #   missing_model(model_denominator, model_numerator=None, stabilized=True, bound=False, print_results=True);
+    #   fit(solver='closed', starting_value=None, alpha_value=0, tolerance=1e-7, verbose_solver=False, maxiter=500)
+    if pos:
+        g = GEstimationSNM(df.rename(columns=nm), r('A'), r('Y'), r('wt') if weights else None)
+        g.exposure_model(r(expo), False)
+    else:
+        g = GEstimationSNM(df.rename(columns=nm), exposure=r('A'), outcome=r('Y'), weights=r('wt') if weights else None)
+        g.exposure_model(r(expo), print_results=False)
+    g.structural_nested_model(r(snm))
 
     def miss():
-        g.missing_model(miss_den, stabilized=(missing == 'model_stab'), print_results=False)
+        if pos:
+            g.missing_model(r(miss_den), None, missing == 'model_stab', False, False)
+        else:
+            g.missing_model(r(miss_den), stabilized=(missing == 'model_stab'), print_results=False)
+
+    def final_fit():
+        if pos:
+            g.fit(solver, kw.get('starting_value'), 0, 1e-7, False, kw.get('maxiter', 500))
+        else:
+            g.fit(solver=solver, **kw)
     if history == 'fit_then_missing_model':
         g.fit(solver='closed')
         miss()
@@ -225,20 +314,57 @@ def run_impl(df, expo, p, weights, missing, miss_den, solver='closed', snm=None,
         if mm:
             miss()
         if history and history.startswith('snm_before'):
-            g.structural_nested_model(SNMS[int(history.split(':')[1])])
+            g.structural_nested_model(r(SNMS[int(history.split(':')[1])]))
             g.fit(solver='closed')
-            g.structural_nested_model(snm)
+            g.structural_nested_model(r(snm))
         elif history == 'refit':
             g.fit(solver='closed')
         elif history == 'exposure_before':
-            g.exposure_model('W', print_results=False)
+            g.exposure_model(r('W'), print_results=False)
             g.fit(solver='closed')
-            g.exposure_model(expo, print_results=False)
+            g.exposure_model(r(expo), print_results=False)
         elif history == 'search_before':
             g.fit(solver='search', maxiter=2)
     g._verif_history = history
-    g.fit(solver=solver, **kw)
+    g._verif_names = names or 'canonical'
+    g._verif_observe = observe
+    g._verif_conv = drawn.get('conv', 'keyword')
+    final_fit()
+    g._verif_psi_at_fit = np.array(g.psi, dtype=float, copy=True)
+    g._verif_labels_at_fit = [rename_tokens(str(x), back) for x in g.psi_labels]
+    g._verif_observe_raised = []
+    for meth, kwargs in (observe or []):
+        with contextlib.redirect_stdout(io.StringIO()):
+            try:
+                getattr(g, meth)(**kwargs)
+            except Exception as e:       # noqa: BLE001
+                # a report that cannot be printed says nothing about psi (the property's subject): recorded and counted
+                # (`reporting_call_raised` in the evidence), and the results are read after the failed call all the same
+                g._verif_observe_raised.append('%s() after fit(solver=%r): %s: %s'
+                                               % (meth, solver, type(e).__name__, str(e).split('\n')[0]))
+    g._verif_psi = np.array(g.psi, dtype=float, copy=True)
+    g._verif_labels = [rename_tokens(str(x), back) for x in g.psi_labels]
     return g
+
+
+def observer_d(chk, g, case):
+    """D: a reporting method called between fit() and reading the results leaves the reported psi and psi_labels
+    exactly as fit() reported them (bit for bit: a report has nothing to compute on them)"""
+    if not g._verif_observe:
+        return
+    ok = g._verif_labels == g._verif_labels_at_fit and g._verif_psi.shape == g._verif_psi_at_fit.shape and \
+        bool(np.array_equal(g._verif_psi, g._verif_psi_at_fit, equal_nan=True))
+    for msg in g._verif_observe_raised:
+        chk.count('reporting_call_raised')
+        chk.extra.setdefault('reporting_call_raised', [])
+        if msg not in chk.extra['reporting_call_raised']:
+            chk.extra['reporting_call_raised'].append(msg)
+    chk.count('observe:' + '+'.join('%s(%s)' % (m, ','.join('%s=%s' % kv for kv in sorted(k.items())))
+                                    for m, k in g._verif_observe))
+    chk.d(ok, 'psi / psi_labels read after the reporting calls %s = psi / psi_labels as fit() reported them (exact)'
+          % ', '.join(m + '()' for m, _ in g._verif_observe),
+          dict(case, psi_at_fit=[float(x) for x in g._verif_psi_at_fit],
+               psi_after_reporting=[float(x) for x in g._verif_psi]))
 
 
 def design(cc, labels):
@@ -294,20 +420,26 @@ def frame_from_record(rec):
     return df
 
 
-def check_closed(chk, drv, df, ytype, p, weights, missing, expo, miss_den, seedinfo, snm=None, history='auto'):
+def check_closed(chk, drv, df, ytype, p, weights, missing, expo, miss_den, seedinfo, snm=None, history='auto',
+                 names='auto', observe='auto', conv='auto'):
     snm = snm or SNMS[p]
     cell = (ytype, p, bool(weights), missing)
     case = {'kind': 'closed', 'ytype': ytype, 'snm': snm, 'weights': bool(weights), 'missing': missing,
             'exposure_model': expo, 'missing_model': miss_den, 'n': len(df), 'data': frame_record(df),
             'seedinfo': seedinfo}
     try:
-        g = run_impl(df, expo, p, weights, missing, miss_den, snm=snm, history=history)
-        psi = np.asarray(g.psi, dtype=float)
-        labels = [str(x) for x in g.psi_labels]
+        g = run_impl(df, expo, p, weights, missing, miss_den, snm=snm, history=history, names=names, observe=observe,
+                     conv=conv)
+        psi = g._verif_psi                  # read after the reporting calls (if any), labels in canonical names
+        labels = g._verif_labels
         case['history'] = g._verif_history
+        case['names'] = g._verif_names
+        case['observe'] = g._verif_observe
+        case['conv'] = g._verif_conv
         err = None
     except Exception as e:       # noqa: BLE001  -- any exception on valid input is a finding
         psi, err, g, labels = None, '%s: %s' % (type(e).__name__, e), None, None
+        case.update(getattr(e, '_verif_drawn', {}))
     want_keys = sorted(map(sorted, (term_key(t) for t in snm.split(' + '))))
     if err is None and not (len(psi) == p and sorted(map(sorted, map(term_key, labels))) == want_keys):
         chk.case(case)
@@ -342,14 +474,18 @@ def check_closed(chk, drv, df, ytype, p, weights, missing, expo, miss_den, seedi
     chk.count('cell:%s/%s/%s/%s' % (ytype, SNMS[p].replace(' ', ''), 'w' if weights else 'nw', missing))
     chk.count('snm_written:' + snm.replace(' ', ''))
     chk.count('history:%s' % (case.get('history') or 'fresh').split(':')[0])
+    chk.count('names:%s' % (case.get('names') or 'canonical'))
+    chk.count('call_convention:%s' % (case.get('conv') or 'keyword'))
     chk.d(err is None, 'GEstimationSNM.fit(closed) runs on valid input', case)
     if err is not None:
         return None
+    observer_d(chk, g, case)
     # ---- D: history independence -- the same specification on a fresh object gives the same psi (by label)
     if case.get('history'):
         try:
-            g2 = run_impl(df, expo, p, weights, missing, miss_den, snm=snm, history=None)
-            fresh = dict(zip(map(str, g2.psi_labels), np.asarray(g2.psi, dtype=float)))
+            g2 = run_impl(df, expo, p, weights, missing, miss_den, snm=snm, history=None, names=case['names'],
+                          observe=None, conv='keyword')
+            fresh = dict(zip(g2._verif_labels, g2._verif_psi))
             ok = set(fresh) == set(labels) and all(close(fresh[l], q, rtol=1e-9, atol=1e-11)
                                                     for l, q in zip(labels, psi))
             case['fresh_psi'] = {k: float(v) for k, v in fresh.items()}
@@ -403,10 +539,114 @@ def check_closed(chk, drv, df, ytype, p, weights, missing, expo, miss_den, seedi
             ok2 = me == Ex and ml == Ex and mg == Ex      # exact: all sides are exact rational evaluations
         chk.k(ok2, 'estimating function: model estEq = harness predicate = generated rha - lhm psi = sum d v_j '
               '(generated H(psi)) (exact)', {'case': case, 'model': {k: str(v)[:200] for k, v in rep2.items()}})
-    return {'g': g, 'psi': psi, 'labels': labels, 'snm': snm, 'ref': ref, 'Vm': Vm, 'case': case}
+    return {'g': g, 'psi': psi, 'labels': labels, 'snm': snm, 'ref': ref, 'Vm': Vm, 'case': case,
+            'names': case['names']}
 
 
-def check_search(chk, df, ytype, p, weights, missing, expo, miss_den, closed, start_mode, history='auto'):
+class FormulaSpy:
+    """records the model strings `_grid_search_` hands to propensity_score (the exposure model + the H(psi) terms)"""
+
+    def __enter__(self):
+        import zepid.causal.snm.g_estimation as ge
+        self.ge, self.orig, self.models = ge, ge.propensity_score, []
+
+        def spy(*a, **k):
+            self.models.append(k.get('model', a[1] if len(a) > 1 else None))
+            return self.orig(*a, **k)
+        ge.propensity_score = spy
+        return self
+
+    def __exit__(self, *exc):
+        self.ge.propensity_score = self.orig
+
+
+def hterms_k(chk, drv, g, models, case):
+    """K: the H(psi) terms zEpid added to the exposure model vs the model's factor-by-factor rewriting (`Snm.hTerm`,
+    theorem hterm_column) of the terms named by psi_labels -- compared as sets of factors per term (a product does not
+    depend on the order of its factors) and through the value of each term's column in one row (exact)"""
+    # the calls of the search come last (a missing-outcome model, if any, was fitted before): the models of the exposure
+    models = [m for m in models if isinstance(m, str) and m.split('~')[0].strip() == str(g.exposure)]
+    if drv is None or not models:
+        return
+    labels = [str(x) for x in g.psi_labels]
+    rhs = models[-1].split('~', 1)[1]
+    impl_terms = [[f.strip() for f in t.split(':')] for t in rhs.split(' + ')[-len(labels):]]
+    ids = {}
+
+    def fid(name):
+        return ids.setdefault(name, len(ids) + 1)
+    treat, h = fid(str(g.exposure)), fid('H_psi')
+    terms = [[fid(f.strip()) for f in lab.split(':')] for lab in labels]
+    impl_ids = [[fid(f) for f in t] for t in impl_terms]
+    vals = [Fraction(0)] + [Fraction(2 * i + 3, i + 2) for i in range(len(ids))]      # value of name id i in the row
+    hval = Fraction(-5, 7)
+    rep, _ = drv.ask('snm_hterms', treat=treat, h=h, terms=','.join(str(x) for t in terms for x in t + [0]),
+                     vals=','.join(str(v) for v in vals), hval=str(hval))
+    ok = rep['status'] == 'ok'
+    if ok:
+        flat = [int(x) for x in rep['hterms'].split(',')]
+        mterms, cur = [], []
+        for x in flat:
+            if x == 0:
+                mterms.append(cur)
+                cur = []
+            else:
+                cur.append(x)
+        mcol = [Fraction(x) for x in rep['col'].split(',')]
+        icol = []
+        for t in impl_ids:
+            v = Fraction(1)
+            for f in t:
+                v *= hval if f == h else vals[f]
+            icol.append(v)
+        ok = [sorted(t) for t in mterms] == [sorted(t) for t in impl_ids] and mcol == icol
+    chk.k(ok, 'search solver: the H(psi) terms added to the exposure model = treatment replaced factor by factor in the '
+          'terms named by psi_labels (model hTerm; columns H x modifiers)',
+          {'case': case, 'psi_labels': labels, 'impl_terms': impl_terms, 'model': rep})
+
+
+def check_root_criterion(chk, df, ytype, p, weights, missing, expo, miss_den, closed, names='auto', drv=None,
+                         conv='auto'):
+    """D, deterministic (no reliance on where Nelder-Mead ends): the closed-form psi is a root of the estimating
+    equations, and the search solver's criterion -- sum |alpha| of the H(psi) terms added to the exposure model --
+    measures exactly that association, so it vanishes at the closed-form root.  A search started AT the closed form and
+    stopped after one iteration reports the smallest criterion value over its initial simplex, which contains the
+    start: it must be <= 1e-6 (the check's definition of 'reached a root'; measured on the unchanged tree: <= 1e-9).
+    A criterion built from the wrong terms (a product spelled modifier-first, a modifier whose name contains the
+    exposure's) is O(1) there or raises."""
+    if closed['case'].get('cond_lhm', 0) > 1e6:
+        return          # ill-scaled modifier: the closed form's forward error is not at rounding level
+    case = dict(closed['case'])
+    case.update({'kind': 'root_criterion', 'start': [float(x) for x in closed['psi']]})
+    if names == 'auto':
+        names = closed['names']
+    try:
+        with FormulaSpy() as spy:
+            g = run_impl(df, expo, p, weights, missing, miss_den, solver='search', snm=closed['snm'], history=None,
+                         names=names, observe=None, conv=conv,
+                         starting_value=[float(x) for x in closed['psi']], maxiter=1)
+        fun = float(g._scipy_solver_obj.fun)
+        labels_s = g._verif_labels
+    except Exception as e:       # noqa: BLE001
+        chk.case(case)
+        chk.d(False, 'GEstimationSNM.fit(search) runs on valid input', dict(case, impl_error=repr(e), names=names))
+        return
+    case['names'] = names
+    case['conv'] = g._verif_conv
+    case['criterion_at_closed_form'] = fun
+    chk.case(case, ('root_criterion', closed['snm'], names, bool(weights), missing, ytype, hash(df.to_csv())))
+    chk.count('root_criterion:p%d/%s/%s' % (p, 'w' if weights else 'nw', missing))
+    chk.count('root_criterion_snm:' + closed['snm'].replace(' ', ''))
+    chk.extra['root_criterion_max'] = max(chk.extra.get('root_criterion_max', 0.0), fun)
+    chk.d(sorted(labels_s) == sorted(closed['labels']),
+          'search solver: psi_labels name exactly the terms of the SNM, one psi each', dict(case, search_labels=labels_s))
+    chk.d(fun <= 1e-6, 'the search solver\'s criterion sum|alpha| vanishes at the closed-form root (<= 1e-6) -- '
+          'the two solvers solve the same equations', case)
+    hterms_k(chk, drv, g, spy.models, case)
+
+
+def check_search(chk, df, ytype, p, weights, missing, expo, miss_den, closed, start_mode, history='auto',
+                 observe='auto', conv='auto'):
     """closed vs search (numerical; Nelder-Mead)"""
     psi_c = closed['psi']
     if start_mode == 'zero':
@@ -418,13 +658,14 @@ def check_search(chk, df, ytype, p, weights, missing, expo, miss_den, closed, st
     case.update({'kind': 'search', 'start': start})
     try:
         g = run_impl(df, expo, p, weights, missing, miss_den, solver='search', snm=closed['snm'], history=history,
-                     starting_value=start, maxiter=600)
+                     names=closed['names'], observe=observe, conv=conv, starting_value=start, maxiter=600)
         res = g._scipy_solver_obj
-        psi_s = np.asarray(g.psi, dtype=float)
-        labels_s = [str(x) for x in g.psi_labels]
+        psi_s = g._verif_psi
+        labels_s = g._verif_labels
     except Exception as e:       # noqa: BLE001
         chk.case(case)
-        chk.d(False, 'GEstimationSNM.fit(search) runs on valid input', dict(case, impl_error=repr(e)))
+        chk.d(False, 'GEstimationSNM.fit(search) runs on valid input',
+              dict(case, impl_error=repr(e), **getattr(e, '_verif_drawn', {})))
         return
     case['search_psi'] = [float(x) for x in psi_s]
     case['search_labels'] = labels_s
@@ -436,11 +677,14 @@ def check_search(chk, df, ytype, p, weights, missing, expo, miss_den, closed, st
     by_label = dict(zip(labels_s, psi_s))
     psi_s = np.array([by_label[l] for l in closed['labels']], dtype=float)
     case['history'] = getattr(g, '_verif_history', None)
+    case['observe'] = g._verif_observe
+    case['conv'] = g._verif_conv
     case['search_fun'] = float(res.fun)
     case['search_nit'] = int(res.nit)
     chk.case(case, ('search', p, bool(weights), missing, ytype, hash(df.to_csv())))
     chk.count('search:p%d/%s/%s/%s' % (p, 'w' if weights else 'nw', missing, start_mode))
     chk.h_checked += 1
+    observer_d(chk, g, case)
     if not (res.success and res.fun <= 1e-6):
         chk.discard('Nelder-Mead did not reach a root (success=%s, sum|alpha| > 1e-6), p=%d' % (res.success, p))
         return
@@ -469,9 +713,9 @@ def check_objective(chk, drv, df, ytype, p, weights, missing, expo, miss_den, cl
     case['kind'] = 'objective'
     try:
         g = run_impl(df, expo, p, weights, missing, miss_den, solver='search', snm=closed['snm'], history=None,
-                     maxiter=1)
+                     names=closed['names'], observe=None, conv='keyword', maxiter=1)
         res = g._scipy_solver_obj
-        x = dict(zip([str(t) for t in g.psi_labels], np.asarray(res.x, dtype=float)))
+        x = dict(zip(g._verif_labels, np.asarray(res.x, dtype=float)))
         x = np.array([x[l] for l in closed['labels']], dtype=float)
     except Exception as e:       # noqa: BLE001
         chk.k(False, 'search objective: truncated search runs', dict(case, impl_error=repr(e)))
@@ -520,9 +764,11 @@ def check_saturated(chk, drv, rng, ytype, weights, missing, seedinfo):
     eval_saturated(chk, drv, df, ytype, weights, missing, expo, strata_cols, degenerate, seedinfo)
 
 
-def eval_saturated(chk, drv, df, ytype, weights, missing, expo, strata_cols, degenerate, seedinfo, history='auto'):
+def eval_saturated(chk, drv, df, ytype, weights, missing, expo, strata_cols, degenerate, seedinfo, history='auto',
+                   names='auto', observe='auto', conv='auto'):
     miss_den = 'A + V'
-    res = check_closed(chk, drv, df, ytype, 1, weights, missing, expo, miss_den, seedinfo, history=history)
+    res = check_closed(chk, drv, df, ytype, 1, weights, missing, expo, miss_den, seedinfo, history=history,
+                       names=names, observe=observe, conv=conv)
     if res is None:
         return
     cc, w, psi = res['ref']['cc'], res['ref']['w'], res['psi']
@@ -581,7 +827,7 @@ def eval_singular(chk, drv, df):
     case = {'kind': 'singular', 'data': frame_record(df)}
     chk.case(case, ('singular', hash(df.to_csv())))
     try:
-        run_impl(df, 'W + L', 2, False, 'none', None, history=None)
+        run_impl(df, 'W + L', 2, False, 'none', None, history=None, names='canonical', observe=None, conv='keyword')
         impl = 'ok'
     except np.linalg.LinAlgError:
         impl = 'singular'
@@ -621,7 +867,7 @@ def run(chk, drv, rng, tier):
     chk.extra['config_cells'] = len(cells)
     keep = {}
     for rep in range(reps):
-        for (ytype, p, weights, missing) in cells:
+        for ci, (ytype, p, weights, missing) in enumerate(cells):
             degenerate = [None, 'treated', 'untreated'][int(rng.integers(0, 3))] if rep % 3 == 2 else None
             df = gen_data(rng, ytype, missing, degenerate=degenerate)
             expo = EXPO[int(rng.integers(0, len(EXPO)))] if not degenerate else \
@@ -630,10 +876,17 @@ def run(chk, drv, rng, tier):
             # how the SNM is written rotates with the repetition: product-first / swapped factors, stateful
             # transforms, random
             snm = make_snm(rng, p, rep % 3)
+            if rep % 3 == 0:
+                # the cells handed to the search stream: every product written modifier-first / as drawn /
+                # treatment-first, in rotation over the cells (the search solver rewrites the terms as text)
+                snm = respell(snm, ['modifier_first', 'as_is', 'treatment_first'][(ci // 4 + ci) % 3])
             res = check_closed(chk, drv, df, ytype, p, weights, missing, expo, miss_den,
                                {'rep': rep, 'tier': tier}, snm=snm)
             if res is not None and rep == 0:
                 keep[(ytype, p, weights, missing)] = (df, expo, miss_den, res)
+            if res is not None and rep % 3 != 2:
+                # the search solver's criterion at the closed-form root (cheap: one truncated search), every cell
+                check_root_criterion(chk, df, ytype, p, weights, missing, expo, miss_den, res, drv=drv)
     # ill-scaled effect modifiers (calendar year, age in days): cond(lhm) up to ~1e13; D judges the residual
     ill = ['A + A:yr', 'A:yr + A', 'A + A:yr + A:V', 'A + A:days', 'A + A:V + A:days', 'A + A:center(yr)']
     k = 0
@@ -692,13 +945,15 @@ def replay(rec):
             print('no data stored for', f.get('what'), case if case else '')
             continue
         key = (case.get('kind'), json.dumps(case['data'], sort_keys=True), case.get('snm'), str(case.get('history')),
-               str(case.get('start')))
+               str(case.get('start')), str(case.get('names')), str(case.get('observe')), str(case.get('conv')))
         if key in seen:
             continue
         seen.add(key)
         df = frame_from_record(case['data'])
         chk = common.Check('C15', 'replay', 0)
         kind = case.get('kind')
+        nmo = dict(names=case.get('names') or 'canonical', observe=case.get('observe'),
+                   conv=case.get('conv') or 'keyword')
         with common.quiet():
             try:
                 if kind == 'singular':
@@ -710,21 +965,25 @@ def replay(rec):
                     if kind == 'saturated':
                         eval_saturated(chk, None, df, case['ytype'], case['weights'], case['missing'],
                                        case['exposure_model'], case['strata_cols'], case.get('degenerate_stratum'),
-                                       {'replay': True}, history=case.get('history'))
-                    elif kind == 'search':
-                        res = check_closed(chk, None, df, *cfg, {'replay': True}, snm=case['snm'], history=None)
-                        if res is not None:
+                                       {'replay': True}, history=case.get('history'), **nmo)
+                    elif kind in ('search', 'root_criterion'):
+                        res = check_closed(chk, None, df, *cfg, {'replay': True}, snm=case['snm'], history=None,
+                                           names=nmo['names'], observe=None, conv='keyword')
+                        if res is not None and kind == 'search':
                             check_search(chk, df, *cfg, res, 'zero' if case.get('start') is None else 'near',
-                                         history=case.get('history'))
+                                         history=case.get('history'), observe=case.get('observe'), conv=nmo['conv'])
+                        elif res is not None:
+                            check_root_criterion(chk, df, *cfg, res, conv=nmo['conv'])
                     else:
                         check_closed(chk, None, df, *cfg, {'replay': True}, snm=case['snm'],
-                                     history=case.get('history'))
+                                     history=case.get('history'), **nmo)
                 err = None
             except Exception as e:       # noqa: BLE001
                 err = repr(e)
-        print('%s case: %s %s weights=%s missing=%s exposure_model=%r history=%s n=%d'
+        print('%s case: %s %s weights=%s missing=%s exposure_model=%r history=%s column names=%s reporting calls=%s call convention=%s n=%d'
               % (kind, case.get('ytype'), case.get('snm'), case.get('weights'), case.get('missing'),
-                 case.get('exposure_model'), case.get('history'), len(df)))
+                 case.get('exposure_model'), case.get('history'), case.get('names'), case.get('observe'),
+                 case.get('conv'), len(df)))
         if err:
             print('   raised:', err)
             rc = 1
@@ -734,7 +993,8 @@ def replay(rec):
             gc = g['case'] if isinstance(g['case'], dict) else {}
             print('   FAIL', g['what'])
             for k in ('impl_psi', 'psi_labels', 'esteq_rel_residual', 'fresh_psi', 'search_psi', 'search_fun',
-                      'stratified_closed_form', 'impl_error'):
+                      'stratified_closed_form', 'impl_error', 'criterion_at_closed_form', 'psi_at_fit',
+                      'psi_after_reporting'):
                 if k in gc:
                     print('        %s: %s' % (k, gc[k]))
         if chk.d_fail:
